@@ -366,16 +366,16 @@ def gen_recipes(ctx):
     for how in ("shuffle", "cols", "sorted"):
         for api in ("create_cooler", "create"):
             for symm in (True, False):
-                for _ in range(2 * mul):
+                for _ in range(1 * mul):
                     R.append([G.gen_create_ensure_sorted(rng, "es.cool", how, api, symm=symm)])
+    # --- interplay of documented options: the full boolean grid of the validation switches per producer
+    R += G.gen_option_grid(rng)
     # --- producer options with valid input (each must leave a valid collection)
     def with_opts(step, **opts):
         st = dict(step)
         st["opts"] = {**(st.get("opts") or {}), **opts}
         return st
     OPTS = [
-        {"boundscheck": False}, {"dupcheck": False}, {"triucheck": False},
-        {"boundscheck": False, "dupcheck": False, "triucheck": False},
         {"h5opts": {"compression": None}}, {"h5opts": {"compression": "lzf"}}, {"h5opts": {"shuffle": False}},
         {"h5opts": {"chunks": [1]}}, {"h5opts": {"compression": "gzip", "compression_opts": 1, "fletcher32": True}},
         {"dtypes": {"count": "int64"}}, {"dtypes": {"count": "int16"}}, {"dtypes": {"count": "float64"}},
